@@ -80,6 +80,16 @@ CHECKS = {
          "Join: every non-empty subset of a 10 (12) item alphabet, all orders for |S|<=4 and four canonical orders above, is sketched with the real code and compared with the position-wise min (SuperMinHash f32/f64) resp. max (SetSketcher u8/u16/u32, 5 (b,q) sets incl. clipping q=3, m in {1,5,16,(2,40)}) of the REAL single-item sketches; the reported lowest register must not exceed the true minimum. Merge: ALL sequences up to depth 5 (6) over 18 operations on three same-parameter instances (2 shared items, 1 own item and 1 overlapping burst per instance; 6 ordered merges), 8.4e6 sequences quick: the final state of every instance must equal the join over a set model in which merge is union, and the estimate must not decrease on the last operation. Commutativity, associativity, idempotence, merge = sketch of the union and streaming-after-merge are asserted on all triples of a 16-set family with empty sides; merges between 32 parameter pairs differing in exactly one of b,m,a,q (u16 and overflowing u8 registers) must be refused and leave signature, overflow count, lowest register and estimate unchanged.",
          "differences below 1e-6 relative are not claimed as 'different parameters'; larger alphabets / deeper sequences assumed alike",
          "DESIGN.md §4 C05"),
+ "C03": ("model_checking",
+         "exhaustive enumeration of all labellings of a hash-seed block (exact integer identity, Lemma 1) + finite-population partition estimates",
+         "Unbiasedness is decided as an exact integer identity on the real sketchers: for 7 variants (SuperMinHash f32/f64, SuperMinHash2 u32/u64; Fnv, XxHash32, no-op hashers), m in {1,2,3,5,8,16,33}, every set shape with union <=4 (5) and EVERY assignment of the identifiers of a block of 10 (13) to its roles (7.6e5 subset triples, 7e6 position comparisons quick), the number of labellings in which position p of sketch(A) and sketch(B) agree times |A∪B| equals the number of labellings times |A∩B| - no tolerance. A broken identity is arbitrated on 2e5 fresh labellings before it is reported, since the property speaks of the expectation. Large / lopsided shapes (singleton in 1e4, m>>n, m<<n, m=1) are checked on T disjoint labellings: |mean-J|<=6se and MSE<=J(1-J)/m+6se. The single-item law is checked on 2^16 (2^19) items: integer parts a permutation (exact), orders equally frequent (chi2), fractions uniform (KS) and uncorrelated.",
+         "Lemma 1 (DESIGN §2) holds for sketchers that are set functions with label-independent winners and blocks without ties; statistical parts are finite-population statements with a 6 sigma / confirm rule",
+         "DESIGN.md §2, §4 C03"),
+ "C08": ("model_checking",
+         "exhaustive enumeration of all labellings of a hash-seed block (exact integer identity, Lemma 1) on the densified sketchers, all three views",
+         "For OptDensMinHash and RevOptDensMinHash (float f32/f64, u64 and u32 views; Fnv and no-op hashers), sketch sizes m in {1,2,3,5,8,16,33,64} - from m << |S| to m = 16|S| where >95% of bins are produced by densification - every set shape with union <=4 (5) and EVERY assignment of block identifiers (10 (13) ids, two blocks; 6.7e5 subset triples, 3.5e7 position comparisons quick): collisions(p) x |A∪B| == labellings x |A∩B| for every position and view, exactly. Broken identities are arbitrated on 2e5 fresh labellings. Six large-set shapes (dense, sparse, very sparse, nested 4e4, lopsided, m=1) x 4 variants x 3 views are confirmed on T disjoint labellings within 6 standard errors. A watchdog reports a densification that does not return.",
+         "Lemma 1 preconditions (no ties inside the block) are covered by arbitration; partition part is a finite-population statement",
+         "DESIGN.md §2, §4 C08"),
 }
 PENDING_REASON = "check not built yet in this revision (see DESIGN.md §4 for the planned model-checking approach)"
 
